@@ -146,3 +146,16 @@ func VerifSetMaxRetryCount(n int) int {
 	maxRetryCount = n
 	return o
 }
+
+// VerifPeekTSO reads the in-memory TSO of an allocator without taking tsoMux. Only for
+// a harness that runs one thread at a time (an observer must not wait for the lock a
+// suspended thread holds).
+func VerifPeekTSO(a Allocator) (physical time.Time, logical int64) {
+	switch x := a.(type) {
+	case *GlobalTSOAllocator:
+		return x.timestampOracle.tsoMux.physical, x.timestampOracle.tsoMux.logical
+	case *LocalTSOAllocator:
+		return x.timestampOracle.tsoMux.physical, x.timestampOracle.tsoMux.logical
+	}
+	return
+}
